@@ -460,6 +460,10 @@ def run(ctx):
     _stage_c(ctx)
     c17codec.stage_b(ctx)
     c17codec.stage_c(ctx)
+    # extension beyond the listed property (never a VIOLATION): the one-directional payload functions, the element codecs and the
+    # parser dispatch of bits.p2p, spec/P2PMore.tla
+    from . import ext_wire
+    ctx.run_extension("P2PMore", ext_wire.stage, ctx)
 
 
 def replay(ctx, path):
